@@ -257,9 +257,27 @@ func GenScript(r *hlib.Rng, profile string, maxOps int) Script {
 // slices of one access unit do)
 func genPub(r *hlib.Rng, k Kind) []Op {
 	ops := []Op{{Code: 'P', Kind: k, Extra: genExtra(r), SameTs: r.Chance(25)}}
-	if k == KKey && r.Chance(45) {
+	if (k == KKey || k == KFuKeyS) && r.Chance(45) {
+		// a key frame of 2–3 slices, each a single NAL packet or fragmented (start fragment + later
+		// fragments), all with one timestamp
+		frag := func(same bool) {
+			ops = append(ops, Op{Code: 'P', Kind: KFuKeyS, Extra: genExtra(r), SameTs: same})
+			for m := 1 + r.Intn(2); m > 0; m-- {
+				ops = append(ops, Op{Code: 'P', Kind: KFuKeyM, Extra: genExtra(r), SameTs: true})
+			}
+		}
+		if k == KFuKeyS {
+			for m := 1 + r.Intn(2); m > 0; m-- {
+				ops = append(ops, Op{Code: 'P', Kind: KFuKeyM, Extra: genExtra(r), SameTs: true})
+			}
+		}
 		for n := 1 + r.Intn(2); n > 0; n-- {
-			ops = append(ops, Op{Code: 'P', Kind: KKey, Extra: genExtra(r), SameTs: !r.Chance(10)})
+			same := !r.Chance(10)
+			if r.Chance(50) {
+				frag(same)
+			} else {
+				ops = append(ops, Op{Code: 'P', Kind: KKey, Extra: genExtra(r), SameTs: same})
+			}
 		}
 	}
 	return ops
